@@ -95,6 +95,24 @@ func main() {
 		}
 	}
 
+	// 1b. hand-off: every ordered pair of sequences that carry a buffer (same or different kind,
+	// second one shorter, equal or longer), consumer retains everything without Finish
+	carriers := []string{"\x1b]0;title-one\x07", "\x1b]8;;http://example.com\x1b\\", "\x1b]1\x07", "\x1bP1;2$qdata-one\x1b\\", "\x1bPqz\x1b\\",
+		"\x1b_Gapc-payload-one\x1b\\", "\x1b_x\x1b\\", "\x1b[1;2;3 q", "\x1b[38:2:1:2:3;4:3m", "\x1b[?1$p", "\x1b#3", "\x1b (B", "\x1b[<0;10;20M"}
+	for _, a := range carriers {
+		for _, b := range carriers {
+			for _, tail := range []string{"", "x\x1b]long-long-long-long-payload\x07\x1b[9;8;7;6;5;4 r"} {
+				stream := []byte(a + b + tail)
+				res := parsehx.Run(&parsehx.ChunkReader{Chunks: [][]byte{stream}}, false, 5*time.Second)
+				js := caseJSON{Segments: [][]int{ints(stream)}, End: "eof", Items: res.Items, EOFs: res.EOFs, Kind: "retain-pair"}
+				if !lifecycle(res, js) {
+					continue
+				}
+				trunc.Add(hx.Tuple(parsehx.CoqSegments([][]byte{stream}), parsehx.CoqItems(res.Items, res.EOFs)), js, true, "retain-pair")
+			}
+		}
+	}
+
 	// 2. Escape timing: segments separated by real silence (40 ms >> the 10 ms timer)
 	heads := []string{"", "a", "\x1b[1", "\x1b]ab", "\x1b]", "\x1bPq", "\x1bPqz", "\x1b_G", "\x1bX", "\x1bO", "\x1b ", "\x1b[1;2", "é"}
 	tails := []string{"", "a", "\\", "[A", "\x1b\\", "\x1b", "OP", "]x\x07", "\x18", "é"}
